@@ -448,12 +448,7 @@ func checkC11(c *Check) {
 	c.Obl(cfgGetter(m.RfForm["client_id"], "GetClientId"), "C11.R1", "form/client_id", P.Pos(m.RfExchange.Pos()), "client_id ← configuration", "client_id of the refresh request is not the configured client id")
 	c.Obl(cfgGetter(m.RfForm["client_secret"], "GetClientSecret"), "C11.R1", "form/client_secret", P.Pos(m.RfExchange.Pos()), "client_secret ← configuration (read when the request is built)", "client_secret of the refresh request is not the configured client secret")
 	c.Obl(len(m.RfForm) == 4 && len(m.RfFormDyn) == 0, "C11.R1", "form/exact", P.Pos(m.RfExchange.Pos()), "exactly the four members", fmt.Sprintf("refresh form members: %v", tableKeys(m.RfForm)))
-	okURL := false
-	for i, p := range R.TokenExchange.Params {
-		if isString(p.Type()) && cfgGetter(m.RfExchange.Common().Args[i], "GetTokenUri") {
-			okURL = true
-		}
-	}
+	okURL := exchangeURLOK(R, m.RfExchange)
 	c.Obl(okURL, "C11.R1", "url", P.Pos(m.RfExchange.Pos()), "sent to the configured token URI", "the refresh request is not sent to the configured token URI")
 	// guard at the call site
 	fs := FactsOf(pr).At(site)
@@ -486,8 +481,8 @@ func checkC11(c *Check) {
 		if isNilConst(r.Results[0]) {
 			continue
 		}
-		al, ok := resolveCell(stripConv(r.Results[0])).(*ssa.Alloc)
-		if !c.Anchor("C11.R2", "merged object built in the refresh helper", ok) {
+		al := uniqueAllocOf(resolveCell(stripConv(r.Results[0])))
+		if !c.Anchor("C11.R2", "merged object built in the refresh helper", al != nil) {
 			return
 		}
 		tr := P.NamedType(pkgOIDC, "TokenResponse")
@@ -814,11 +809,17 @@ func c03R7(c *Check, R *Roles, m *hModel) {
 				}
 			}
 		}
+		if reason == "" {
+			// the rejection follows the exhaustion of a loop over the audience whose body holds the comparison
+			if last := lastBranchCond(r); last != nil && loopExitOverAudience(P, R, v, last) {
+				reason = "no audience element equals the client id"
+			}
+		}
 		// the most recent condition decides: the rejection must be *because of* the classified reason, i.e. the
 		// last branch taken before the return is the classifying one
 		if reason != "" {
 			last := lastBranchCond(r)
-			if last != nil && !condMatchesReason(last, reason) {
+			if last != nil && !condMatchesReason(last, reason) && !(reason == "no audience element equals the client id" && loopExitOverAudience(P, R, v, last)) {
 				reason = ""
 			}
 		}
@@ -1009,6 +1010,44 @@ func phiSetUnderAudience(ph *ssa.Phi) bool {
 					}
 				}
 			}
+		}
+	}
+	return false
+}
+
+// loopExitOverAudience: cond is the condition of a natural loop header, it depends on the token's
+// Audience() (the loop ranges over the audience) and the loop body holds the comparison of an audience
+// element with the client id: leaving the loop by this condition means that no element matched.
+func loopExitOverAudience(P *Program, R *Roles, v *ssa.Function, cond ssa.Value) bool {
+	ci, ok := cond.(ssa.Instruction)
+	if !ok {
+		return false
+	}
+	hb := ci.Block()
+	if _, isIf := hb.Instrs[len(hb.Instrs)-1].(*ssa.If); !isIf {
+		return false
+	}
+	isHead := false
+	for _, p := range hb.Preds {
+		if hb.Dominates(p) {
+			isHead = true
+		}
+	}
+	if !isHead {
+		return false
+	}
+	dep := false
+	for d := range dataDeps(cond) {
+		if ac, isCall := d.(*ssa.Call); isCall && ac.Common().IsInvoke() && ac.Common().Method.Name() == "Audience" {
+			dep = true
+		}
+	}
+	if !dep {
+		return false
+	}
+	for _, ac := range audienceComparisons(P, R, v) {
+		if bo, ok := ac.(*ssa.BinOp); ok && bo.Parent() == v && hb.Dominates(bo.Block()) && blockReaches(bo.Block(), hb) {
+			return true
 		}
 	}
 	return false
